@@ -131,6 +131,12 @@ class Check:
             shown += 1
         if shown > 25:
             print('... %d further violations of %s not written out' % (shown - 25, self.pid))
+        classes = {}
+        for sig, _what, _replay in new:
+            k = json.dumps(sig, sort_keys=True, default=str)
+            classes[k] = classes.get(k, 0) + 1
+        if classes:
+            self.cov['unlisted_violation_classes'] = [{'signature': json.loads(k), 'count': v} for k, v in sorted(classes.items())]
         self.write_evidence(len(new), sorted(seen_known))
         return 1 if new else 0
 
